@@ -360,7 +360,7 @@ PROPS["C04"] = dict(
     streams=["C04"],
     compare=cmp_laws,
     classify=classify_c04,
-    gate_imports="From Coq Require Import String Ascii.\nFrom Cel.Model Require Import Parser Surface.\nFrom Cel.Proofs Require Import PrecedenceProofs ParserRoundtrip ParserFuel LexerRoundtrip.",
+    gate_imports="From Coq Require Import String Ascii.\nFrom Cel.Model Require Import Parser Surface.\nFrom Cel.Proofs Require Import PrecedenceProofs ParserRoundtrip MacroTrees ParserFuel LexerRoundtrip.",
     exhaustive=True,
     exhaustive_note="every tree with <= 2 (thorough: <= 3) operators from the complete operator set "
                     "(?:, ||, &&, 7 relations, 5 arithmetic, !, -, select, index, receiver call, global "
